@@ -262,6 +262,14 @@ def _case(tdk, sk):
             return rt.fail('C20:list-no-line:' + label, repr(r[0]))
         line = out[:-1]
         l_date, l_path = line[:19], line[20:]
+        # 1b. the other output formats of trash-list name the same original location
+        _, rf = scen.run_model(world, [C('list', extra_args + ['--files'], e, cwd='/')])
+        if rf[0]['exc']:
+            return rt.fail('C20:list-files-traceback:' + label, rf[0]['exc'])
+        want_line = '%s %s -> %s' % (l_date, l_path, td + '/files/e')
+        arrow = extra_args[1] + '/files/e' if (extra_args and extra_args[1] != td) else td + '/files/e'
+        if rf[0]['out'][:-1] not in (want_line, '%s %s -> %s' % (l_date, l_path, arrow)):
+            return rt.fail('C20:list-files-differs-from-list:' + label, 'trash-list prints %r, trash-list --files prints %r' % (line, rf[0]['out']))
         # 2. trash-restore listing
         _, r = scen.run_model(world, [C('restore', extra_args + ['/'], e, stdin=[''], cwd='/')])
         if r[0]['exc']:
